@@ -6,6 +6,8 @@
 #include "vrt_st.h"
 #include "ref_text.h"
 #include "gen_text.h"
+#include "gen_scale.h"
+#include "ambient.h"
 
 using vrt::Rng;
 using vrt::sfmt;
@@ -183,6 +185,7 @@ static void own_buffer_needles(const vrt::Box<ST::string> &hs, const S &h, Rng &
 
 static void body()
 {
+    ambient::enable(3);
     vrt::require("pairs", 1000);
     vrt::require("find.hit", 1000);
     vrt::require("find.miss", 1000);
@@ -291,6 +294,74 @@ static void body()
                 pair_case(hs, h, n, {0, 1, 2, 3, h.size(), len + 2, len + 4, h.size() - 2, SMAX});
                 vrt::count("long_needles.cases");
             }
+        });
+    }
+    // scale: haystacks of several KiB up to ~1 MiB whose length is on / next to a multiple of a block size, a background that
+    // cannot match, and 0..3 occurrences planted so that they straddle or touch multiples of a block size measured from the
+    // beginning, from the end, and from the start position / limit that the call is given
+    {
+        vrt::require("scale.cases", 40);
+        vrt::require("scale.occurrence_straddles_block_boundary", 20);
+        vrt::require("scale.haystack>=64KiB", 10);
+        // the case index walks a grid: block size B x multiple q x the point distances are measured from
+        // (beginning / end / forwards from the start position / backwards from the limit); the primary occurrence is
+        // planted so that 0..|needle| of its bytes lie before the point at distance q*B; further occurrences only where
+        // they cannot mask it (behind it for forward searches, in front of it for backward ones)
+        const std::vector<size_t> &BL = scale::blocks();
+        vrt::phase("scale", vrt::tier_count(700, 20000), [&](uint64_t i, Rng &r) {
+            const size_t B = BL[i % BL.size()], q = 1 + (i / BL.size()) % 8;
+            const unsigned kind = static_cast<unsigned>((i / (BL.size() * 8)) % 4);
+            const size_t dist = q * B;
+            if (dist > (1u << 20)) { vrt::count("scale.skipped_too_large"); return; }
+            static const char *const bgs[] = {"x", "xy", "xyz.", "x\xc3\xa9", "\xff", "\xe9\xc9", "@[`{"};
+            static const char *const nalpha[] = {"ab", "aAbB", "aA", "ab\x80", "Kk\xcb\xeb"};
+            S n;
+            const size_t nlen = r.chance(1, 6) ? 1 : r.chance(1, 4) ? 9 + r.below(300) : 2 + r.below(7);
+            {
+                S al = nalpha[r.below(sizeof(nalpha) / sizeof(nalpha[0]))];
+                if (r.chance(1, 4)) al.push_back('\0');
+                n = gen::bytes_over(r, nlen, al);
+            }
+            // total length: the distance plus a margin that is itself sometimes large (so that "more than 128 KiB in all" happens)
+            const size_t margin = r.chance(1, 3) ? r.below(40) : r.chance(1, 2) ? 1000 + r.below(70000) : 131072 + r.below(70000);
+            const size_t len = dist + nlen + margin;
+            S h = scale::byte_background(r, len, bgs[r.below(sizeof(bgs) / sizeof(bgs[0]))]);
+            // anchor = the start position / limit handed to the call
+            size_t anchor, point;
+            switch (kind) {
+            case 0: anchor = 0; point = dist; break;                                    // from the beginning
+            case 1: anchor = len; point = len - dist; break;                            // from the end
+            case 2: anchor = r.below(margin + 1); point = anchor + dist; break;         // forwards from a start position
+            default: anchor = len - r.below(margin + 1); point = anchor - dist; break;  // backwards from a limit
+            }
+            const bool forward = kind == 0 || kind == 2;
+            const size_t back = r.below(n.size() + 1);
+            size_t at = point + static_cast<size_t>(r.chance(1, 4) ? scale::nudge(r) + 9 : 9) - 9;
+            at = at >= back ? at - back : 0;
+            S occ = n;
+            if (r.chance(1, 2)) occ = r.chance(1, 2) ? ref::uppered(n) : ref::folded(n);
+            at = scale::plant(h, at, occ);
+            std::vector<size_t> positions = {0, anchor, len, SMAX, at, at + n.size(), at + n.size() - 1};
+            const unsigned extra = static_cast<unsigned>(r.below(3));
+            for (unsigned k = 0; k < extra; ++k) {
+                // keep the stretch between the anchor and the primary occurrence free of matches
+                size_t lo, hi;
+                if (forward) { lo = at + n.size(); hi = len; } else { lo = 0; hi = at; }
+                if (hi < lo + n.size()) continue;
+                const size_t e = scale::plant(h, lo + r.below(hi - lo - n.size() + 1), r.chance(1, 2) ? ref::uppered(n) : n);
+                positions.push_back(e + (forward ? 0 : n.size()));
+            }
+            vrt::Box<ST::string> hs(vrt::mk(h));
+            pair_case(hs, h, n, positions);
+            if (vrt::str_of(*hs) != h) vrt::violation("C07:haystack-changed", scale::brief(h));
+            vrt::count("scale.cases");
+            vrt::count(sfmt("scale.measured_from.%s", kind == 0 ? "beginning" : kind == 1 ? "end" : kind == 2 ? "start_position" : "limit"));
+            if (back > 0 && back < n.size()) vrt::count("scale.occurrence_straddles_block_boundary");
+            if (len >= 65536) vrt::count("scale.haystack>=64KiB");
+            if (len >= 262144) vrt::count("scale.haystack>=256KiB");
+            if (vrt::want_sample("scale"))
+                vrt::sample("scale", sfmt("haystack %s needle=%s block=%zu x %zu measured %s, occurrence at %zu, anchor=%zu", scale::brief(h, at).c_str(), show(n).c_str(), B, q,
+                                          kind == 0 ? "from the beginning" : kind == 1 ? "from the end" : kind == 2 ? "forwards from the start position" : "backwards from the limit", at, anchor));
         });
     }
     vrt::alloc::check_pairing("search");
